@@ -262,6 +262,98 @@ func runC05(c *core.Ctx) core.Meta {
 	// R05.9: one ALU per compute unit (fresh.go)
 	checkPerUnitInstances(c, "R05.9")
 
+	// ---------------- R05.10 generated identifiers are only tested for identity ----------------
+	st10 := c.Rule("R05.10", "identifiers drawn from the process-wide generator (message IDs, RspTo, task IDs, wavefront / work-group UIDs: decimal strings of a counter that is never reset between simulations of one process) take part only in identity tests: no ordering comparison (<, <=, >, >=, strings.Compare) in simulation code has such an identifier as an operand. The order of two identifiers as strings changes when the counter passes a power of ten (\"100\" < \"99\"), so a tie-break or sort on them makes the second run of a workload in one process differ from the first", 6)
+	idTests := 0
+	isGeneratedID := func(p *packages.Package, e ast.Expr) bool {
+		found := false
+		ast.Inspect(e, func(n ast.Node) bool {
+			switch x := n.(type) {
+			case *ast.SelectorExpr:
+				switch x.Sel.Name {
+				case "ID", "UID", "RspTo", "TaskID", "RespondTo":
+					if tv, ok := p.TypesInfo.Types[x]; ok {
+						if b, ok := tv.Type.Underlying().(*types.Basic); ok && b.Kind() == types.String {
+							found = true
+						}
+					}
+				}
+			case *ast.CallExpr:
+				if sel, ok := x.Fun.(*ast.SelectorExpr); ok && (sel.Sel.Name == "Generate" || sel.Sel.Name == "GetRspTo") {
+					found = true
+				}
+			}
+			return !found
+		})
+		return found
+	}
+	for _, p := range pkgs {
+		rel := core.RelPkg(p.PkgPath)
+		if strings.HasPrefix(rel, "amd/samples/runner") && !strings.Contains(rel, "timingconfig") && !strings.Contains(rel, "emusystem") {
+			continue
+		}
+		core.FuncDecls(p, func(fd *ast.FuncDecl) {
+			ast.Inspect(fd.Body, func(n ast.Node) bool {
+				var operands []ast.Expr
+				var at token.Pos
+				what := ""
+				switch x := n.(type) {
+				case *ast.BinaryExpr:
+					switch x.Op {
+					case token.LSS, token.LEQ, token.GTR, token.GEQ:
+					case token.EQL, token.NEQ:
+						// positive example of the matcher: identity tests of generated identifiers
+						if tv, ok := p.TypesInfo.Types[x.X]; ok {
+							if b, ok := tv.Type.Underlying().(*types.Basic); ok && b.Info()&types.IsString != 0 && (isGeneratedID(p, x.X) || isGeneratedID(p, x.Y)) {
+								st10.Instances++
+								st10.Ob(true)
+								idTests++
+							}
+						}
+						return true
+					default:
+						return true
+					}
+					tv, ok := p.TypesInfo.Types[x.X]
+					if !ok {
+						return true
+					}
+					if b, ok := tv.Type.Underlying().(*types.Basic); !ok || b.Info()&types.IsString == 0 {
+						return true
+					}
+					operands, at, what = []ast.Expr{x.X, x.Y}, x.OpPos, x.Op.String()
+				case *ast.CallExpr:
+					sel, ok := x.Fun.(*ast.SelectorExpr)
+					if !ok || sel.Sel.Name != "Compare" || len(x.Args) != 2 {
+						return true
+					}
+					if id, ok := sel.X.(*ast.Ident); !ok || id.Name != "strings" {
+						return true
+					}
+					operands, at, what = x.Args, x.Pos(), "strings.Compare"
+				default:
+					return true
+				}
+				st10.Instances++
+				bad := false
+				for _, o := range operands {
+					if isGeneratedID(p, o) {
+						bad = true
+					}
+				}
+				st10.Ob(!bad)
+				st10.Sample("%s: ordering comparison of strings (%s) has no generated identifier as operand: %v", rel+"."+core.DeclName(fd), what, !bad)
+				if bad {
+					c.Report(core.Finding{Rule: "R05.10", Pkg: rel, Func: core.DeclName(fd), Detail: "id-ordered:" + core.DeclName(fd), Pos: c.Position(at),
+						Msg: core.DeclName(fd) + " orders identifiers from the process-wide generator with " + what + ": they are decimal strings of a counter that keeps running between simulations of one process, and as strings \"100\" sorts before \"99\", so the decision differs between the first and the second run of the same workload (and from the order the units were created in)"})
+				}
+				return true
+			})
+		})
+	}
+
+	st10.Sample("identity tests (==, !=) of generated identifiers recognised by the matcher: %d", idTests)
+
 	// ---------------- R05.2 host-dependent values ----------------
 	st2 := c.Rule("R05.2", "calls that return host-dependent values (wall clock, global math/rand, crypto/rand, process/goroutine/CPU counts, xid, %p formatting) in simulation code are exactly the listed exceptions, whose results flow only into sinks that simulation code never reads", 2)
 	hostFuncs := map[string]bool{
